@@ -11,10 +11,10 @@ namespace cs {
 enum Kind { K_CORRECT = 0, K_CACHE_RESET = 1, K_ERROR = 2, K_NOANSWER = 3, K_FAULTY = 4, K_V0 = 5, K_HOSTILE = 6, K_RAW = 7, K_N = 8 };
 enum Mut {
 	M_DUP_ANNOUNCE = 0, M_WITHDRAW_UNKNOWN, M_BAD_FLAGS, M_SESSION_CR, M_SESSION_EOD, M_WRONG_VERSION, M_UNKNOWN_TYPE,
-	M_LEN_SMALL, M_LEN_BIG, M_LEN_INCONSISTENT, M_UNEXPECTED_TYPE, M_EOD_OTHER_FORMAT, M_TRUNCATE, M_RECV_FAULT, M_ANN_THEN_WD, M_N
+	M_LEN_SMALL, M_LEN_BIG, M_LEN_INCONSISTENT, M_UNEXPECTED_TYPE, M_EOD_OTHER_FORMAT, M_TRUNCATE, M_RECV_FAULT, M_ANN_THEN_WD, M_PREFIX_BADVER, M_N
 };
-enum Idle { I_TIMEOUT = 0, I_INTR = 1, I_CLOSE = 2, I_ERROR = 3, I_NOTIFY = 4, I_STOP_RESTART = 5, I_N = 6 };
-enum SendMode { S_OK = 0, S_PARTIAL = 1, S_ERROR = 2, S_WOULDBLOCK = 3, S_INTR = 4, S_PARTIAL_THEN_ERROR = 5, S_N = 6 };
+enum Idle { I_TIMEOUT = 0, I_INTR = 1, I_CLOSE = 2, I_ERROR = 3, I_NOTIFY = 4, I_STOP_RESTART = 5, I_LATE_INTR = 6, I_N = 7 }; // LATE_INTR: EINTR one second after the deadline
+enum SendMode { S_OK = 0, S_PARTIAL = 1, S_ERROR = 2, S_WOULDBLOCK = 3, S_INTR = 4, S_PARTIAL_THEN_ERROR = 5, S_SLOW_PARTIAL = 6, S_N = 7 }; // SLOW_PARTIAL: blocks for the send timeout, then takes 1..3 bytes
 
 // interval value table used for EOD fields and for the configuration (index -> seconds)
 static const uint32_t IV_TABLE[] = {
@@ -129,14 +129,14 @@ inline Script from_bytes(const uint8_t *data, size_t size)
 		t.open_delay = (b >> 2) % DELAY_N;
 		uint8_t c = r.u8();
 		t.send_mode = (c & 0x0f) < 10 ? 0 : (c & 0x0f) - 9; // mostly OK
-		t.advance = (c >> 4) & 3;
+		t.advance = ((c >> 4) & 3) + ((a >> 6) == 3 ? 3 : 0);
 		t.new_session = (c >> 6) == 3;
 		t.toggle = r.u64();
 		t.mut = r.u8() % M_N;
 		t.pos = r.u8();
 		uint8_t d = r.u8();
 		t.keep = d & 1;
-		t.err_flags = (d >> 1) & 3;
+		t.err_flags = ((d >> 1) & 3) | ((d >> 5) & 4);
 		t.notify_prefix = (d >> 3) & 1;
 		t.chunk = (d >> 4) & 3;
 		t.order = r.u8();
